@@ -78,18 +78,27 @@ template<typename K> struct RegT : Reg {
     o.F((I)sk.levels_.size());
   }
   double estimate(const Pt& q) override { return sk.get_estimate(q); }
+  typedef std::vector<std::vector<int64_t>> Items;
+  template<typename P> static void add_item(Items& items, const P& pr) {
+    std::vector<int64_t> e;
+    e.push_back((int64_t)pr.second);
+    for (double c : pr.first) e.push_back((int64_t)c);
+    items.push_back(e);
+  }
+  // the sketch is walked in four ways: ++it, it++, *it++ and range-for; all must expose the same (point, weight) pairs.
+  // R reports the first walk that deviates from the pre-increment walk (the plain walk when none does); F[2] = its number (0 = none).
   void iterate(Out& o) override {
-    std::vector<std::vector<int64_t>> items;
-    for (auto it = sk.begin(); it != sk.end(); ++it) {
-      const auto pr = *it;
-      std::vector<int64_t> e;
-      e.push_back((int64_t)pr.second);
-      for (double c : pr.first) e.push_back((int64_t)c);
-      items.push_back(e);
-    }
-    std::sort(items.begin(), items.end());
+    Items walk[4];
+    for (auto it = sk.begin(); it != sk.end(); ++it) add_item(walk[0], *it);
+    for (auto it = sk.begin(); it != sk.end(); it++) add_item(walk[1], *it);
+    { auto it = sk.begin(); while (it != sk.end()) { const auto pr = *it++; add_item(walk[2], pr); } }
+    for (const auto pr : sk) add_item(walk[3], pr);
+    int dev = 0;
+    for (int w = 0; w < 4; ++w) std::sort(walk[w].begin(), walk[w].end());
+    for (int w = 1; w < 4 && !dev; ++w) if (walk[w] != walk[0]) dev = w;
+    const Items& items = walk[dev];
     o.R((I)sk.get_num_retained()); o.R((I)items.size());
-    o.F((I)sk.levels_.size()); o.F((I)sk.get_k());
+    o.F((I)sk.levels_.size()); o.F((I)sk.get_k()); o.F((I)dev);
     for (const auto& e : items) for (int64_t v : e) o.R((I)v);
   }
   std::unique_ptr<Reg> roundtrip() override {
